@@ -116,8 +116,9 @@ def bulkApply (e : BEl) (p : BSt) : Except Ret Unit × BSt :=
 def bulkOp (s : St) (atomic cof : Bool) (els : List BEl) :
     Bulk.RunErr Ret × List (Bulk.BRes Unit Ret) × St :=
   let s := { s with script := els.foldl (fun f e => upd f e.w e.ok) s.script }
-  let (e, rs, p) := Bulk.runBulk bulkCtrl { atomic, cof } (fun p => Bulk.runSeq Bulk.elementTag bulkApply cof els 0 false p) (s, none)
-  (e, rs, p.1)
+  let out := Bulk.runBulk bulkCtrl { atomic, cof }
+    (fun p => Bulk.runSeq Bulk.elementTag bulkApply cof els 0 false p) (s, none)
+  (out.1, out.2.1, out.2.2.1)
 
 /-- A client operation of the `events` workload. -/
 inductive Op where
